@@ -632,7 +632,7 @@ func ruleP9(r *Run) {
 // P10 (C19): the broker marks a withdrawn topic by storing a nil value in the subscriber's topic
 // map. A single-value type assertion on a value of that map panics on the nil interface.
 func init() {
-	register("P10", "in a package that stores nil into a sync.Map (the broker's marker for a withdrawn topic), every value loaded or ranged from a sync.Map is type-asserted to a pointer type only in the comma-ok form or under a dominating != nil test: otherwise the first delivery, heartbeat or unsubscribe after a Deny panics", 4, ruleP10)
+	register("P10", "in a package that stores nil into a sync.Map (the broker's marker for a withdrawn topic), every value loaded or ranged from a sync.Map is type-asserted to a pointer type only in the comma-ok form or under a dominating != nil test: otherwise the first delivery, heartbeat or unsubscribe after a Deny panics", 2, ruleP10)
 }
 
 func ruleP10(r *Run) {
